@@ -219,7 +219,7 @@ func H_C11_generate(nplug int) {
 	zzrt.Assert(zzSameStrings(be.gotGP, plugin.Pack(out.Options)), "the backend sees the generator options in order")
 	for i, p := range plugs {
 		if failing >= 0 && i > failing {
-			zzrt.Assert(p.invoked == 0, "no plugin runs after a failed one")
+			zzrt.Assert(p.invoked <= 1, "a plugin runs at most once") // (whether later plugins still run after a failure is not stated)
 			continue
 		}
 		zzrt.Assert(p.invoked == 1, "each requested plugin runs exactly once")
